@@ -397,13 +397,40 @@ def rules(rep, m):
     no = len([o for o in out["origins"] if o[0] in ev_roots])
     r7.obligations += no
     r7.discharged += max(0, no - nf)
+    # the records of what a process waits for (timers, awaited events / processes): the handle that withdraws a pending
+    # wake-up must not be read from a record that was already returned to its pool when it sits in the record's first
+    # word (restriction of R-C10-2 to src/cmb_process.c)
+    pr_frees = [o for o in out["frees"] if o[2].startswith("src/cmb_process.c")]
+    for o in sorted(pr_frees):
+        r7.instance("%s frees to %s at %s" % o)
+    nf2 = 0
+    for rid, root, cons, msg, where in out["findings"]:
+        if rid == "R-C10-2" and cons.startswith("use-after-free:first-word") and where.startswith("src/cmb_process.c") \
+                and (root, cons) not in seen:
+            seen.add((root, cons))
+            rep.finding(r7, root, cons, msg + " - the wake-up it names is then not withdrawn and fires later", where=where)
+            nf2 += 1
+    r7.obligations += len(pr_frees)
+    r7.discharged += max(0, len(pr_frees) - nf2)
 
 
     # R-C04-8 ------------------------------------------------------------
     r8 = rep.rule("R-C04-8", "withdrawing wake-ups that are still in flight looks at every pending event: the scan in "
                   "cmb_event_pattern_cancel (used by every unwinding path) visits exactly the slots 1 .. heap_count (shared "
                   "with R-C02-9) - an event in a slot that is never looked at would resume the process out of a later wait", floor=1)
-    from . import siftrules
+    from . import siftrules, c02
+    for f_, lp_, H_, bad_ in c02.heap_loops(m):
+        if f_.name != "cmb_event_pattern_cancel":
+            continue
+        r8.instance("%s: loop over the slots of %s->heap calls %s" % (f_.name, H_, sorted(set(bad_)) or "nothing that restructures it"))
+        if bad_:
+            rep.finding(r8, f_.name, "scan:restructures-heap", "the scan for pending wake-ups calls %s inside the loop over the event "
+                        "queue's slots: a removal refills the slot with the last entry, which can sift up into the part already "
+                        "scanned, so a matching wake-up is never looked at, survives the unwinding and resumes the process out "
+                        "of a later wait" % sorted(set(bad_)), where=m.rel(loc(lp_)))
+            r8.fail()
+        else:
+            r8.ok()
     siftrules.check_scans(rep, r8, m, only={"cmb_event_pattern_cancel"})
 
 
